@@ -39,7 +39,8 @@ Definition ret_ok (c : fmt_config) (s : st) : Prop :=
 
 Lemma ret_ok_adv c s t : ret_ok c s -> ret_ok c (adv c s t).
 Proof.
-  unfold ret_ok, adv. destruct (next_mode (mode s) (pe s) t) as [m' p']. simpl.
+  unfold ret_ok, adv. destruct (next_mode (mode s) (pe s) t) as [m' p'].
+  destruct (kis (tk t) KRBrace && Nat.leb (depth s) 1 || kis (tk t) KSemi && Nat.eqb (depth s) 0); simpl; auto.
   destruct (rt s) as [|w|w dr d]; simpl.
   - intros _. destruct (kis (tk t) KReturn && _); simpl; auto.
     destruct (return_statement_parenthesis c) eqn:E; simpl; auto. destruct (negb (fn s)); auto.
@@ -58,13 +59,23 @@ Proof.
   destruct (rt s) as [|w|w dr d]; simpl; auto.
 Qed.
 
-Lemma ret_ok_step c s cs t nk out s' carry :
-  ret_ok c s -> step c s cs t nk = (out, s', carry) -> ret_ok c s'.
+Lemma ret_ok_step0 c s cs t nk out s' carry :
+  ret_ok c s -> step0 c s cs t nk = (out, s', carry) -> ret_ok c s'.
 Proof.
-  unfold step. destruct (emit (decide c s t nk) cs t) as [o ca].
+  unfold step0. destruct (emit (decide c s t nk) cs t) as [o ca].
   intros H E. injection E as _ E2 _. subst s'.
   destruct (decide c s t nk); try (now apply ret_ok_fold).
   apply ret_ok_patch. now apply ret_ok_fold.
+Qed.
+
+Lemma ret_ok_step c s cs t nk out s' carry :
+  ret_ok c s -> step c s cs t nk = (out, s', carry) -> ret_ok c s'.
+Proof.
+  unfold step. intros H. destruct (opens_return s t).
+  - destruct (step0 c (adv c s t_lparen) cs t nk) as [[o s1] ca] eqn:E0.
+    intros E. injection E as _ E2 _. subst s'.
+    eapply ret_ok_step0; [|exact E0]. now apply ret_ok_adv.
+  - now apply ret_ok_step0.
 Qed.
 
 Lemma item_toks_app a b : item_toks (a ++ b) = item_toks a ++ item_toks b.
@@ -72,6 +83,10 @@ Proof. unfold item_toks. apply map_app. Qed.
 
 Lemma item_toks_nocom (l : list tok) : item_toks (map (fun y => ([] : list com, y)) l) = l.
 Proof. unfold item_toks. rewrite map_map. simpl. apply map_id. Qed.
+
+Lemma rw_parens_ins c n a b :
+  return_statement_parenthesis c = true -> rewrites c a b -> rewrites c a (repeat t_rparen n ++ b).
+Proof. intros H R. induction n; simpl; auto. apply rw_paren_ins; auto. Qed.
 
 Lemma spelling_rw c t cs a b :
   rewrites c a b -> rewrites c (t :: a) (item_toks (fst (emit (spelling c t) cs t)) ++ b).
@@ -112,8 +127,7 @@ Proof.
   unfold ret_ok in Hr. destruct (rt s) as [|w|w dr d].
   - now apply normal_rw.
   - destruct w.
-    + destruct (kis (tk t) KSemi || kis (tk t) KLParen); [now apply normal_rw|].
-      simpl. apply rw_paren_ins; auto. now apply rw_keep.
+    + now apply normal_rw.
     + destruct (kis (tk t) KLParen && negb (nk_is nk KLParen)) eqn:E2; [|now apply normal_rw].
       apply andb_true_iff in E2 as [E2 _]. simpl. apply rw_paren_del; auto. now rewrite E2.
   - destruct (kis (tk t) KRParen && Nat.eqb d 0 && dr && nk_is nk KSemi) eqn:E2.
@@ -121,7 +135,39 @@ Proof.
       apply andb_true_iff in E2 as [E2 _]. simpl. apply rw_paren_del; auto. now rewrite E2, orb_true_r. }
     destruct (kis (tk t) KSemi && w && Nat.ltb 0 d) eqn:E3; [|now apply normal_rw].
     apply andb_true_iff in E3 as [E3 _]. apply andb_true_iff in E3 as [_ E3]. subst w.
-    simpl. apply rw_paren_ins; auto. now apply rw_keep.
+    destruct d as [|m]; [simpl; now apply rw_keep|].
+    unfold emit. cbn [fst]. unfold item_toks. cbn [map snd].
+    change (map snd (map (fun y : tok => ([] : list com, y)) (repeat t_rparen m ++ [t])))
+      with (item_toks (map (fun y : tok => ([] : list com, y)) (repeat t_rparen m ++ [t]))).
+    rewrite item_toks_nocom. cbn [app]. apply rw_paren_ins; auto.
+    rewrite <- app_assoc. apply rw_parens_ins; auto. simpl. now apply rw_keep.
+Qed.
+
+Lemma step0_rw c s cs t nk out s' carry a b :
+  ret_ok c s -> step0 c s cs t nk = (out, s', carry) ->
+  rewrites c a b -> rewrites c (t :: a) (item_toks out ++ b).
+Proof.
+  intros Hr E R. unfold step0 in E.
+  destruct (emit (decide c s t nk) cs t) as [o' ca'] eqn:Ee.
+  injection E as E1 _ _. subst o'.
+  pose proof (decide_rw c s t nk cs _ _ Hr R) as H. rewrite Ee in H. exact H.
+Qed.
+
+Lemma opens_return_paren c s t : ret_ok c s -> opens_return s t = true -> return_statement_parenthesis c = true.
+Proof.
+  unfold ret_ok, opens_return. destruct (rt s) as [|[|]|]; auto; discriminate.
+Qed.
+
+Lemma step_rw c s cs t nk out s' carry a b :
+  ret_ok c s -> step c s cs t nk = (out, s', carry) ->
+  rewrites c a b -> rewrites c (t :: a) (item_toks out ++ b).
+Proof.
+  intros Hr E R. unfold step in E. destruct (opens_return s t) eqn:Eo.
+  - destruct (step0 c (adv c s t_lparen) cs t nk) as [[o s1] ca] eqn:E0.
+    injection E as E1 _ _. subst out. simpl.
+    apply rw_paren_ins; auto. { eapply opens_return_paren; eauto. }
+    eapply (step0_rw c (adv c s t_lparen)); [now apply ret_ok_adv | exact E0 | exact R].
+  - eapply step0_rw; eauto.
 Qed.
 
 Theorem run_rewrites c : forall its s carry out tl,
@@ -134,11 +180,7 @@ Proof.
     intros E; inversion E; subst.
     pose proof (ret_ok_step _ _ _ _ _ _ _ _ Hr Es) as Hr'.
     specialize (IH _ _ _ _ Hr' Er).
-    rewrite item_toks_app.
-    unfold step in Es. destruct (emit (decide c s t (head_kind rest)) (carry ++ cs) t) as [o' ca'] eqn:Ee.
-    injection Es as E1 _ _. subst o'.
-    pose proof (decide_rw c s t (head_kind rest) (carry ++ cs) _ _ Hr IH) as H.
-    rewrite Ee in H. exact H.
+    rewrite item_toks_app. eapply step_rw; [exact Hr | exact Es | exact IH].
 Qed.
 
 Lemma ret_ok_st0 c : ret_ok c st0.
